@@ -43,15 +43,22 @@ CLAIMED = {
              'ones dropped, days split into years*365+days - add up with the constructor\'s weights to exactly the '
              'delta; Euclidean division facts by lia), C07_datetime_roundtrip / C07_time_roundtrip (dropping the zero '
              'suffix of microsecond/second/minute/hour and the three-positional form lose nothing: the constructor '
-             'rebuilds every field, tzinfo presence and fold). The selection/arithmetic model is compared with the '
+             'rebuilds every field, tzinfo presence and fold). C07_collections_evaluate / C07_ordereddict_order_kept / '
+             'C07_deque_order_kept / C07_collections_rebuild (Model/StdColl.v, Proofs/StdCollProofs.v): OrderedDict, deque, '
+             'defaultdict, Counter, ChainMap, mappingproxy, exceptions and partial are modelled as the call their printer hands '
+             'to pretty_call_alt; that call evaluates to itself with evaluated arguments under every setting, OrderedDict items '
+             'and deque elements keep their own order whether or not sort_dict_keys is set, and what the constructors make of '
+             'the call (pairs inserted in order, last maxlen elements, ChainMap() = one empty dict) is the printed object under '
+             'CPython\'s own invariants; the text of pformat is compared with the model for generated collections (nested in '
+             'each other, under width / indent / sort / max_seq_len / depth). The selection/arithmetic model is compared with the '
              'keywords actually printed for every generated timedelta / datetime / time. Totality and faithfulness of '
              'ALL bundled standard-library printers on real objects (object protocol: attribute availability, '
              'constructor semantics) cannot be predicted by a field-level model and are decided by the oracle run: '
              'seeded instances of 21 type families incl. boundary values, alone and nested, widths 1..200: no '
              '"raised an exception" warning, eval(text) is an equal object of the same type.',
         design='5.4 C07', technique='Coq proofs (arithmetic / selection round trips of the datetime-family printers) + model correspondence + eval oracle on real standard-library objects',
-        note=COMMON_NOTE + ' PARTIAL: only the datetime-family printers have a Coq model; the collection / functools '
-             '/ enum / uuid / pathlib / exception printers are one-line pretty_call forms covered by C17\'s theorems for '
+        note=COMMON_NOTE + ' PARTIAL: the datetime-family and the collections printers have a Coq model; the '
+             'enum / uuid / pathlib / namespace / namedtuple / ast printers are covered by C17\'s theorems for '
              'pretty_call and here by the oracle only. Lambdas and <locals> classes are not evaluable by nature and '
              'are outside the generator. Open finding: localized pytz DstTzInfo.'),
     'C20': dict(
@@ -299,7 +306,7 @@ CLAIMED = {
              'EVERY history of registrations (class / name / predicate), prints and is_registered queries, the '
              'observations of the model of register_pretty / is_registered / pretty_python_value equal those of the '
              '20-line abstract rule (simulation with the abstraction "deferred entry overlays registry entry", '
-             'induction over the history). C15_isreg_pure: register_deferred=False changes nothing. '
+             'induction over the history); predicates are applied to instance tags (Print c i), so they may look at the value. C15_isreg_pure: register_deferred=False changes nothing. '
              'check_deferred=False is only proved sound (it is an implementation-level query). The model is run '
              'against the implementation on fresh class lattices, observations compared step by step, and the rule is '
              're-implemented independently in Python as the oracle.',
